@@ -82,6 +82,8 @@ def _case(draw):
         deps = [draw(st.sampled_from(used)) for _ in range(nd)]
         case["ode_mod"].append({"target": draw(st.sampled_from(used)), "factor": draw(st.sampled_from(ODE_FACTORS)), "deps": deps})
     case["config_route"] = draw(st.integers(0, 2)) == 0
+    # the other way into the configuration file: `naunet init --rate-modifier=... --ode-modifier=...` (one option per term)
+    case["init_route"] = draw(st.integers(0, 3)) == 0
     return case
 
 
@@ -260,9 +262,53 @@ def check_case(case, tier):
                     if x != y:
                         failures.append((f"modifier/config-render-differs/{what.split()[0]}", f"{what} re-rendered from naunet_config.toml differ from the API rendering of the same network"))
                         break
+        if case.get("init_route") and not failures and (case["rate_mod"] or case["ode_mod"]):
+            init_route(case, d, keys, failures, labels)
     nontrivial = shared or unindexed or any(len(m["deps"]) >= 2 for m in case["ode_mod"]) or multi_term
     sample = dict(N.abridge(case), rate_mod=case["rate_mod"], indices=eff_idx)
     return CaseResult(failures, nontrivial, labels, sample=sample)
+
+
+def init_route(case, d, keys, failures, labels):
+    """`naunet init` with the modifiers on the command line (fresh process): the written tables equal the request."""
+    import tomlkit
+    from ..proc.call import call
+    from . import c08, c20
+
+    sep = set(",;:'")
+    if any(sep & set(str(v)) for v in keys.values()) or any(sep & set(m["factor"]) for m in case["ode_mod"]):
+        return  # a value containing the option's own separators cannot be written on the command line (C20's domain note)
+    N.reset_naunet_state()
+    net = N.build_network(case)
+    path = d / "init_net.naunet"
+    net.write(str(path), "naunet")
+    names = N.names_of(case)
+    terms = [[names[m["target"]], m["factor"], [names[i] for i in m["deps"]]] for m in case["ode_mod"]]
+    dflt = c08.CFG["default"]
+    desc = {"fmt": "naunet", "text": path.read_text(), "name": "vtproj", "description": "", "surface": "#", "bulk": "@", "grain_symbol": "GRAIN",
+            "elements": list(dflt["elements"]), "pseudo": list(dflt["pseudo"]), "replacement": {}, "allowed": [], "required": [names[i] for i in sorted(set(case.get("required", [])))],
+            "binding": {}, "yields": {}, "grain_model": "", "cooling": [], "shielding": {}, "rate_mod": {str(k): str(v) for k, v in keys.items()}, "ode_mod_terms": terms,
+            "ode_split": "one-per-term", "spacing": {"list": "", "table": "", "kv": ""}, "backend": ["cvode", "dense", "cpu"]}
+    labels.append("init-route")
+    res = call("vtlib.checks.c20", "run_init", {"desc": desc, "options": c20.option_string(desc)})
+    if "raised" in res:
+        failures.append((f"modifier/init-raises/{res['raised'].split(':')[0]}", f"naunet init with the modifiers on the command line: {res['raised']}"))
+        return
+    if res["config"] is None:
+        failures.append(("modifier/init-wrote-no-config", f"status {res['status']}: {res['err']}"))
+        return
+    cfg = tomlkit.parse(res["config"])
+    got_r = {str(k): str(v) for k, v in cfg["chemistry"]["rate_modifier"].items()}
+    if got_r != desc["rate_mod"]:
+        failures.append(("modifier/init-rate-table", f"naunet init wrote rate_modifier {got_r} but {desc['rate_mod']} was requested"))
+    want_o = {}
+    for t, f, deps in terms:
+        ent = want_o.setdefault(t, {"factors": [], "reactants": []})
+        ent["factors"].append(f)
+        ent["reactants"].append(list(deps))
+    got_o = {str(k): {"factors": [str(x) for x in v["factors"]], "reactants": [[str(y) for y in x] for x in v["reactants"]]} for k, v in cfg["chemistry"]["ode_modifier"].items()}
+    if got_o != want_o:
+        failures.append(("modifier/init-ode-table", f"naunet init wrote ode_modifier {got_o} but {want_o} was requested"))
 
 
 def _show(s):
